@@ -20,6 +20,7 @@ limitations under the License.
 package client
 
 import (
+	"bytes"
 	"context"
 	"crypto/ecdsa"
 	"crypto/sha256"
@@ -1163,12 +1164,22 @@ func (c *immuClient) verifiedGet(ctx context.Context, kReq *schema.KeyRequest) (
 			vTx = vEntry.Entry.Tx
 		}
 
+		// the entry handed back to the caller must be the one that is verified
+		if !bytes.Equal(vEntry.Entry.Key, kReq.Key) || vEntry.Entry.Tx != vTx {
+			return nil, store.ErrCorruptedData
+		}
+
 		e = database.EncodeEntrySpec(kReq.Key, schema.KVMetadataFromProto(vEntry.Entry.Metadata), vEntry.Entry.Value)
 	} else {
 		ref := vEntry.Entry.ReferencedBy
 
 		if kReq.AtTx == 0 {
 			vTx = ref.Tx
+		}
+
+		// the reference handed back to the caller must be the one that is verified
+		if !bytes.Equal(ref.Key, kReq.Key) || ref.Tx != vTx {
+			return nil, store.ErrCorruptedData
 		}
 
 		e = database.EncodeReference(kReq.Key, schema.KVMetadataFromProto(ref.Metadata), vEntry.Entry.Key, ref.AtTx)
@@ -1363,7 +1374,8 @@ func (c *immuClient) VerifiedSet(ctx context.Context, key []byte, value []byte) 
 		return nil, store.ErrCorruptedData
 	}
 
-	if tx.Header().Eh != schema.DigestFromProto(verifiableTx.DualProof.TargetTxHeader.EH) {
+	if tx.Header().Eh != schema.DigestFromProto(verifiableTx.DualProof.TargetTxHeader.EH) ||
+		tx.Header().Eh != schema.DigestFromProto(verifiableTx.Tx.Header.EH) {
 		return nil, store.ErrCorruptedData
 	}
 
@@ -1753,7 +1765,8 @@ func (c *immuClient) VerifiedSetReferenceAt(ctx context.Context, key []byte, ref
 		return nil, store.ErrCorruptedData
 	}
 
-	if tx.Header().Eh != schema.DigestFromProto(verifiableTx.DualProof.TargetTxHeader.EH) {
+	if tx.Header().Eh != schema.DigestFromProto(verifiableTx.DualProof.TargetTxHeader.EH) ||
+		tx.Header().Eh != schema.DigestFromProto(verifiableTx.Tx.Header.EH) {
 		return nil, store.ErrCorruptedData
 	}
 
